@@ -61,4 +61,21 @@ CHECKS["C04"] = {"text": "Proved on the model: every worker newly allocated to a
     "facility. Method: an induction principle for __allocate (Proofs/AllocStruct.v) instantiated with the eligibility and solo/pair predicates.",
     "note": COMMON_NOTE,
     "technique": "Coq proof: induction principle for __allocate + inductive invariant over runs; oracle on new allocations + correspondence of allocation lists at updated/allocated"}
+CHECKS["C05"] = {"text": "Proved on the model: simulate is total; no snapshot other than the final update has a step index >= max_time and at most max_time - start time steps are recorded; "
+    "status is FINISHED_SUCCESS iff all tasks are FINISHED, FINISHED_FAILURE only with time >= max_time, and one of the two is always reported; a non-automatic non-exempt task that no worker "
+    "can serve (skill, team, fixed list) is never allocated, never WORKING/FINISHED, and the run does not report success. PARTIAL: the liveness clause (every feasible project completes "
+    "within the sequential work bound) is not proved; it is searched by the oracle on a feasible stream (feasibility predicate H1-H4 of DESIGN.md) and is the clause that found the SS/SF gate defects.",
+    "note": COMMON_NOTE + " PARTIAL: liveness is searched, not proved. 'simulate always returns' for the implementation (runtime exceptions) can only be searched.",
+    "technique": "Coq proof: induction over the trace shape + stuck-task invariant; liveness by oracle search; correspondence on time/status/task states"}
+CHECKS["C06"] = {"text": "Proved on the model: (a) after __update no task with an open ready gate is NONE; (b) an automatic task without component that is READY after __update is WORKING after the "
+    "allocation phase of every step in which tasks may start; (d) after __update no WORKING task with exhausted work has an open finish gate, whatever the task list order (finishing fixpoint). "
+    "PARTIAL: clause (c) (no FREE eligible worker / worker-facility pair is left idle while a task could accept it) is not proved; it is searched by the oracle on the contention stream.",
+    "note": COMMON_NOTE + " PARTIAL: the maximality-of-allocation clause is searched, not proved.",
+    "technique": "Coq proof: completeness of check_ready / finishing fixpoint / closed form of check_working; oracle for the idle-worker clause; correspondence on states, allocations, placements"}
+CHECKS["C10"] = {"text": "Proved on the model: at a project-wide absence step nothing is allocated, assigned or moved, no non-automatic task progresses, an automatic WORKING task loses exactly its unit rate iff "
+    "the flag is set, nothing starts unless the flag is set; at every non-working row of the history all workers and facilities are logged ABSENCE and all cost entries at all levels are 0; a resource in "
+    "state ABSENCE contributes 0 progress and costs 0, and the absence refresh of a working step sets ABSENCE exactly for the listed steps. PARTIAL: that the ABSENCE state persists through the rest of "
+    "the step, and the deletion clause (remove_absence_time_list gives the absence-free result), are searched by the oracle; for the deletion clause one finding is recorded (FIFO rule, known_findings.json).",
+    "note": COMMON_NOTE + " PARTIAL: deletion clause searched; KNOWN FINDING C10/f-fifo.",
+    "technique": "Coq proof: phase characterisations + ghost-history log representation; oracle (incl. deletion vs absence-free run) + full-state correspondence"}
 NOT_APPLICABLE = {}
